@@ -40,8 +40,9 @@ PROOF = {
  "C09": ("Platform.compatible_tags is verified per (OS class, architecture) against the declarative membership rule and rank order of PEP 600/656/macOS for all integer versions (loop invariants sound/ordered/complete, no bound); _evaluate_platform's score contract likewise; the bounded part compares the real strings on the whole C09 grid with an independent oracle (exhaustive) and, in the thorough tier, the oracle with packaging.tags.",
          "5 C09", "A-STRFMT (renderings injective on template+integers; checked exhaustively on the grid); floor/alias/format tables transcribed from the PEPs; fat* formats unclaimed",
          "contract-based deductive verification: loop invariants over abstract tag terms, z3 with deterministic instantiation"),
- "C13": ("Reflexivity, symmetry, transitivity of == and hash compatibility are discharged for every pair/triple of the nine atom-level classes (six specifier classes incl. both spellings of the universal set, AnyMarker, EmptyMarker, MarkerExpression) with symbolic fields, == and hash resolved through the modelled Python protocol on the real methods; interchangeability as equal denotation / read-set frame obligation. Compound markers are covered by the bounded part.",
-         "5 C13", "A-DATACLASS; hash of a tuple is a function of its items' hashes; compound markers and OrderedSet bounded only",
+ "C13": ("Reflexivity, symmetry, transitivity of == and hash compatibility are discharged for every pair/triple of the nine atom-level classes (six specifier classes incl. both spellings of the universal set, AnyMarker, EmptyMarker, MarkerExpression) with symbolic fields, == and hash resolved through the modelled Python protocol on the real methods; interchangeability as equal denotation / read-set frame obligation. For compound markers and atom groups (with OrderedSet values) the induction step is discharged: if == on the children is an equivalence "
+         "compatible with hash, so are the generated ==/hash of the compound; interchangeability of compounds is covered by the bounded part.",
+         "5 C13", "A-DATACLASS; hash of a tuple is a function of its items' hashes; structural induction over marker depth (step proved, principle trusted)",
          "contract-based deductive verification: finite class case split with symbolic fields, z3"),
  "C16": ("(i) acceptance monotone in requires_python by two-copy symbolic execution of the real _evaluate_python over the tag universe; (ii) tag-set nestedness as a lemma over the proved C09 rules; (iii) compare() executed symbolically in both directions over all platform-shape pairs: reflexive, symmetric on INCOMPATIBLE, never HIGHER both ways, and LOWER_OR_EQUAL/HIGHER imply the hypothesis of (ii).",
          "5 C16", "trusted bases of C08, C09 and C13; nestedness on the stated grid (same manylinux/musllinux major, macOS 10.x minors <= 16, non-fat formats)",
